@@ -452,60 +452,62 @@ func (ps *pairScript) anyStream(i int) (uint32, bool) {
 
 func (ps *pairScript) randomOp(faultsAllowed bool) string {
 	r := ps.c.r
-	i := r.intn(2)
 	nconn := len(ps.rg.S[0].conns)
-	switch x := r.intn(100); {
-	case x < 12:
-		// as in Cloak itself only the client side (A) opens streams; the server side accepts them
-		// (both sides number their streams from 1, so opening on both would collide — outside the protocol)
-		ps.open(0)
-		return "open"
-	case x < 34:
-		if id, ok := ps.anyStream(i); ok {
-			sizes := []int{1, 2, 17, 300, 3000}
-			ps.write(i, id, r.bytes(sizes[r.intn(len(sizes))]))
-			return "write"
-		}
-	case x < 62:
-		from, k := r.intn(2), r.intn(nconn)
-		for t := 0; t < 2*nconn; t++ {
-			if ps.deliver(from, k) {
-				return "deliver"
+	for attempt := 0; attempt < 8; attempt++ {
+		i := r.intn(2)
+		switch x := r.intn(100); {
+		case x < 10:
+			// as in Cloak itself only the client side (A) opens streams; the server side accepts them
+			// (both sides number their streams from 1, so opening on both would collide — outside the protocol)
+			ps.open(0)
+			return "open"
+		case x < 32:
+			if id, ok := ps.anyStream(i); ok {
+				sizes := []int{1, 2, 17, 300, 3000}
+				ps.write(i, id, r.bytes(sizes[r.intn(len(sizes))]))
+				return "write"
 			}
-			k = (k + 1) % nconn
-			if k == 0 {
-				from = 1 - from
+		case x < 60:
+			from, k := r.intn(2), r.intn(nconn)
+			for t := 0; t < 2*nconn; t++ {
+				if ps.deliver(from, k) {
+					return "deliver"
+				}
+				k = (k + 1) % nconn
+				if k == 0 {
+					from = 1 - from
+				}
 			}
+		case x < 68:
+			ps.accept(i, r.intn(3) == 0)
+			return "accept"
+		case x < 82:
+			if id, ok := ps.anyStream(i); ok {
+				ps.read(i, id, 1+r.intn(400), r.intn(3) == 0)
+				return "read"
+			}
+		case x < 89:
+			if id, ok := ps.anyStream(i); ok {
+				ps.closeStream(i, id)
+				return "closeStream"
+			}
+		case x < 93:
+			ps.tick(time.Duration(1+r.intn(40)) * time.Second)
+			return "tick"
+		case x < 95:
+			if faultsAllowed {
+				ps.closeSession(i)
+				return "close"
+			}
+		case x < 97:
+			if faultsAllowed {
+				ps.fault(r.intn(nconn))
+				return "fault"
+			}
+		default:
+			ps.propagate()
+			return "propagate"
 		}
-	case x < 70:
-		ps.accept(i, r.intn(3) == 0)
-		return "accept"
-	case x < 84:
-		if id, ok := ps.anyStream(i); ok {
-			ps.read(i, id, 1+r.intn(400), r.intn(3) == 0)
-			return "read"
-		}
-	case x < 90:
-		if id, ok := ps.anyStream(i); ok {
-			ps.closeStream(i, id)
-			return "closeStream"
-		}
-	case x < 93:
-		ps.tick(time.Duration(1+r.intn(40)) * time.Second)
-		return "tick"
-	case x < 95:
-		if faultsAllowed {
-			ps.closeSession(i)
-			return "close"
-		}
-	case x < 97:
-		if faultsAllowed {
-			ps.fault(r.intn(nconn))
-			return "fault"
-		}
-	case x < 100:
-		ps.propagate()
-		return "propagate"
 	}
 	return "none"
 }
@@ -578,7 +580,7 @@ func c12(c *ctx) {
 		synctest.Run(func() {
 			ps := newPairScript(c, method, nconn, sp, inact, tag)
 			for k := 0; k < nops; k++ {
-				op := ps.randomOp(k > 4)
+				op := ps.randomOp(k > nops/3)
 				trace = append(trace, op)
 				kinds[op]++
 			}
